@@ -397,6 +397,8 @@ def check_members(c, named, prefix="members"):
     import copy
     named = [(n, ev) for n, ev in named if ev]
     if not named:
+        if c.viol:
+            return          # nothing could be run because of what was already reported (build failures)
         raise MachineryError("no member-accessor log recorded")
     r, bad = model_check("MC_Members", "MC_Members", timeout=600)
     c.add_tlc(r, "MC_Members")
